@@ -25,6 +25,9 @@ CHECKS = {
  "C07": ("other", "call-graph SCC classification: depth-guard recognition (dominators), monotone-parameter recursion, block-only descent by EDPE, leaf self-calls from the pairing table; stack budget from compile-only -fstack-usage",
          "Decides the stack clause structurally: every recursive cycle reachable from the API is bounded by a guard against a constant (or confined to block-level nesting / flat input / a visited set) and bound x frame sizes fits a 2 MiB budget; plus R-CONSTTIME (append primitives are loop-free), a necessary condition of the linear-cost clause. Asymptotic cost itself is NOT decided (data-dependent loops).",
          "§3 C07"),
+ "C10": ("other", "format-literal census of every id=/href=# anchor site with reaching-definition classification of the printed number; provenance check of heading anchors (one label function); field-write census of the numbering counters",
+         "Decides: within each anchor family (fn, fnref, cn, cnref, gn, gnref) every id and every reference print the number derived the same way (plain vs EXT_RANDOM_FOOT-transformed), each referenced family has an id site, heading ids / TOC / EPUB nav / LaTeX labels / ODF bookmarks all come from label_from_header, the auto-link target does too (known finding), and the note lists iterate the stacks that assign the numbers. That every reference resolves for every document (label text equality) is not decided.",
+         "§3 C10"),
  "C11": ("other", "AST census of every comparison / hash lookup against a stored metadata key; provenance check of the compared value (normaliser result, fixed-point literal, caller arguments)",
          "Decides one necessary condition only (explicitly weak): keys are stored through label_from_string and every strcmp / HASH_FIND_STR against a stored key uses a value in the same normal form, and the API functions detect metadata before reading the stack. Offsets, value extraction, continuation joining and update splicing are data-dependent string arithmetic and are not decided.",
          "§3 C11"),
